@@ -66,12 +66,12 @@ CLAIMED = {
             "equals the returned state (trigger batch included); minLoss is a true minimum for any strict weak order. Tied to calibrator.py with losses at 0.5*10^-p +-1ulp.",
             "Trusted: Lean kernel; np.round(x,p)==0 <=> |fl(x*10^p)| <= 0.5 (compared bit-for-bit each run).",
             "DESIGN.md §4 C14"),
-    "C18": ("Lean 4 proof (table monotone/injective/covering under all op lists of calibrate/checkpoint/set_samplers/set_scheduler; labels identify the class in the current table) + differential run incl. the plotting lookup on calibrator-written folders",
-            "Proved in Lean: the id table only grows (old table is a prefix), stays one-id-per-class and one-class-per-id, covers the line-up and every class that produced a batch, "
-            "and every stored label is the current id of the producing class — for all sequences without restore. For restore the code rebuilds the table from the line-up: "
-            "Lean witness restore_reassigns_ids, recorded as known findings (table not persisted). Tied to the code by table/label comparison after every op and by calling "
-            "plot_results._get_samplers_names on real checkpoints.",
-            "Trusted: Lean kernel; dict insertion order; pickle round trip. Partial: recoverability after set_samplers is a known finding, not proved.",
+    "C18": ("Lean 4 proof (table monotone/injective/covering and labels = current ids under ALL op lists of calibrate/checkpoint/restore/set_samplers/set_scheduler, with the same invariant for what every checkpoint holds) + differential run incl. the plotting lookup on calibrator-written folders",
+            "Proved in Lean: the id table only grows along a life line (old table is a prefix), stays one-id-per-class and one-class-per-id, covers the line-up and every class that "
+            "produced a batch, every stored label is the table's id of the producing class, and the pair (state, table) stored by every checkpoint satisfies the same invariant, so "
+            "a restore returns a table that still identifies every stored label (labels_identify_class_with_restore, restore_checkpoint_table). The repaired defect (table rebuilt from "
+            "the line-up) is kept as a witness. Tied to the code by table/label comparison after every op and by calling plot_results._get_samplers_names on real checkpoints.",
+            "Trusted: Lean kernel; dict insertion order; JSON round trip of the table.",
             "DESIGN.md §4 C18"),
     "C11": ("Lean 4 proof (a non-raising batch equals the fault-free batch; induction over the loop: completed run = fault-free run, raising run = fault-free prefix; counters untouched) + exhaustive fault injection at every invocation index on the real calibrator (round-robin and RL)",
             "Proved in Lean for every fault plan: calibrate either completes and equals the fault-free run, or raises the failing component's exception with the history of the "
